@@ -12,8 +12,8 @@ CLAIMED = {
             "evidence, not proof.",
             "h11/h2 parsing trusted; requests restricted to a conservative well-formed grammar; fake kernel models TCP as the runtimes see it"),
     "C02": ("5/C02", "Seeded search over response programs (status, headers, chunkings, trailers, early hints) x client pace "
-            "(stalls, tiny/zero HTTP/2 windows with dribbled credit, short socket buffers, short writes) on both workers; an own "
-            "client-side parser is compared with what the application sent. Evidence, not proof.",
+            "(stalls, tiny/zero HTTP/2 windows with dribbled credit, connection-only credit, short socket buffers, short writes) on both workers; an own "
+            "client-side parser is compared with what the application sent, and a send still waiting at the end although the client accepts data is a violation. Evidence, not proof.",
             "own HTTP/1 parser and hyperframe/hpack based HTTP/2 peer are trusted; applications declare a correct content-length or none"),
     "C03": ("5/C03", "Seeded search over closing orders (client FIN/RST/close at any byte, failing writes, keep-alive expiry, "
             "Connection: close, shutdown trigger) x application shapes (early, late, continuing after disconnect) with an "
@@ -27,18 +27,18 @@ CLAIMED = {
     "C07": ("5/C07", "Seeded search over session histories (fast/slow requests, server-generated 404s, partial heads, pipelined pairs, "
             "concurrent HTTP/2 streams) with pauses on a grid around each keep_alive_timeout value, peer loss at every phase and "
             "shutdown while idle; close instants are compared with the admissible window derived from observed idle/busy "
-            "intervals, handler and socket lifetimes with a 0.1 s promptness bound. Two defects recorded as known findings (F10, F12).",
+            "intervals, handler and socket lifetimes with a 0.1 s promptness bound. One defect is recorded as a known finding (F10).",
             "applications return as soon as they see the disconnect; handler lifetimes are observed through a run-time wrapper around TCPServer.run"),
     "C10": ("5/C10", "Seeded search over WebSocket message sequences (types, sizes around the limit counted in characters/bytes, "
             "fragmentation inside code points, pings between fragments, permessage-deflate) x carrier (HTTP/1.1 upgrade, HTTP/2 "
             "extended CONNECT) x recv segmentation on both workers, with own frame builder/parser/inflater; the size-limit "
-            "boundary {limit-1, limit, limit+1} is enumerated for both kinds, carriers and workers. One dependency defect is a known finding (F14).",
+            "boundary {limit-1, limit, limit+1} is enumerated for both kinds, carriers and workers; on HTTP/2 the client may shrink and reopen SETTINGS_INITIAL_WINDOW_SIZE in mid-session. Two defects are known findings (F14 in wsproto, F21).",
             "own RFC 6455/7692 client code trusted; only valid UTF-8 is sent"),
     "C11": ("5/C11", "Complete enumeration of a small handshake matrix (upgrade/connection/version/key/http-version x accept/close, both "
             "carriers and workers) plus seeded search over larger header combinations, application decisions (valid and invalid "
             "accepts, close, denial response, crash) and closing orders, judged against a decision table with an independently "
             "computed RFC 6455 accept token.",
-            "requests that are not upgrade attempts at all (no Connection: upgrade token, other Upgrade value, non-GET) are ordinary HTTP and not judged here"),
+            "requests that are not upgrade attempts at all (no Connection: upgrade token, other Upgrade value) are ordinary HTTP and not judged here; a non-GET request with a complete handshake is only judged for not being upgraded"),
     "C04": ("5/C04", "Seeded search over four input families on both workers, each with tape-drawn segmentation and delays: random bytes "
             "behind protocol-looking prefixes; bit/byte/delete/insert/splice/truncate mutations of valid HTTP/1 pipelines, HTTP/2 "
             "sessions and WebSocket sessions; legal but rare HTTP/2 items at tape-chosen points next to 1..3 ordinary sibling "
